@@ -6,6 +6,7 @@ import (
 	"encoding/hex"
 	"encoding/json"
 	"fmt"
+	"math/big"
 	"os"
 	"os/exec"
 	"reflect"
@@ -62,7 +63,7 @@ var c04DestTypes = map[string]reflect.Type{
 	"plain": reflect.TypeOf(gen.Plain{}), "node": reflect.TypeOf((*gen.Node)(nil)), "bytes": reflect.TypeOf([]byte(nil)),
 	"time": reflect.TypeOf(time.Time{}), "array_int": reflect.TypeOf([4]int{}), "slice_string": reflect.TypeOf([]string(nil)),
 	"map_iface_int": reflect.TypeOf(map[interface{}]int(nil)), "map_iface_iface": reflect.TypeOf(map[interface{}]interface{}(nil)),
-	"map_string_iface": reflect.TypeOf(map[string]interface{}(nil)),
+	"map_string_iface": reflect.TypeOf(map[string]interface{}(nil)), "bigint": reflect.TypeOf((*big.Int)(nil)),
 }
 
 // C04Keyed is registered by name; held by value it cannot be a map key (it has a slice)
@@ -386,6 +387,9 @@ func c04Special() map[string][][]byte {
 	// the input (and beyond the array it is decoded into) arriving through a reader
 	m["unknown-field"] = [][]byte{[]byte("c8\"C04Keyed\"1{s3\"xyz\"}o0{1}"), []byte("c8\"C04Keyed\"3{s4\"name\"s3\"xyz\"s4\"tags\"}o0{s2\"ab\"1a{}}"),
 		[]byte("a2{c8\"C04Keyed\"1{s3\"xyz\"}o0{1}o0{2}}")}
+	// a real number with an enormous exponent read into a big integer: the integer has as many bits as the
+	// exponent says (known finding C04-K3)
+	m["big-exponent"] = [][]byte{[]byte("d1e600000000;")}
 	m["huge-count-reader"] = [][]byte{[]byte("a900000000000000000{12"), []byte("a900000000000000000{12}"), []byte("a4000000000{123")}
 	m["negative-length"] = [][]byte{[]byte("b-5\"\""), []byte("s-1\"\""), []byte("a-1{}"), []byte("m-1{}"), []byte("c-1\"\"0{}"), []byte("s-2\"ab\"")}
 	m["huge-count"] = [][]byte{[]byte("a99999999999{"), []byte("m99999999999{"), []byte("b99999999999\""), []byte("s99999999999\""), []byte("a2147483647{}"), []byte("a1000000000{"),
@@ -423,7 +427,10 @@ func runC04(a Args) tr.Summary {
 		} else if len(b) > 0 && (b[0] == 'R' || b[0] == 'E') {
 			entries = []string{"client"}
 		}
-		if mut == "unknown-field" {
+		if mut == "big-exponent" {
+			dests = []string{"bigint", "iface", "int"}
+			entries = []string{"unmarshal"}
+		} else if mut == "unknown-field" {
 			dests = []string{"iface", "map_string_iface", "map_string_int", "plain"}
 			entries = []string{"unmarshal", "reader"}
 		} else if mut == "huge-count-reader" {
